@@ -572,7 +572,7 @@ def gen_case(rng, name, tier, mode=None, pkind=None, bad=False):
 
 def one_round(chk, ctx, rng, tier, do_k=True):
     for name in [n for n, _ in CONSTRUCTORS] + [p[0] for p in PULSES]:
-        fs, grids, phi, kinds = gen_case(rng, name, tier)
+        fs, grids, phi, kinds = gen_case(rng, name, tier, bad=bool(rng.random() < 0.12))
         chk.stat('props:' + kinds['props']); chk.stat('gridkind:' + kinds['grids'].split('/')[0])
         case_fn(chk, ctx, name, fs, grids, phi, do_k=do_k, kinds=kinds)
         if SPEC[name][1] is not None:
